@@ -85,6 +85,8 @@ type FileRestorer struct {
 	cursor          token.Pos
 	nodeDecl        map[*ast.Object]dst.Node // Objects that have a ast.Node Decl (look up after file has been rendered)
 	nodeData        map[*ast.Object]dst.Node // Objects that have a ast.Node Data (look up after file has been rendered)
+	nodeDeclOrder   []*ast.Object            // Keys of nodeDecl in the order they were added, so they are processed in a determinate order
+	nodeDataOrder   []*ast.Object            // Keys of nodeData in the order they were added, so they are processed in a determinate order
 	cursorAtNewLine token.Pos                // The cursor position directly after adding a newline decoration (or a line comment which ends in a "\n"). If we're still at this cursor position when we add a line space, reduce the "\n" by one.
 	packageNames    map[string]string        // names in the code of all imported packages ("." for dot-imports)
 }
@@ -124,6 +126,8 @@ func (r *FileRestorer) RestoreFile(file *dst.File) (*ast.File, error) {
 	r.lines = []int{0} // initialise with the first line at Pos 0
 	r.nodeDecl = map[*ast.Object]dst.Node{}
 	r.nodeData = map[*ast.Object]dst.Node{}
+	r.nodeDeclOrder = nil
+	r.nodeDataOrder = nil
 	r.packageNames = map[string]string{}
 	r.comments = []*ast.CommentGroup{}
 	r.cursorAtNewLine = 0
@@ -152,11 +156,13 @@ func (r *FileRestorer) RestoreFile(file *dst.File) (*ast.File, error) {
 		// Sometimes new nodes are created here (e.g. in RangeStmt the "Object" is an AssignStmt
 		// which never occurs in the actual code). These shouldn't have position information but
 		// perhaps it doesn't matter?
-		for o, dn := range r.nodeDecl {
-			o.Decl = r.restoreNode(dn, "", "", "", true)
+		// Nodes restored here take their positions from the cursor, so the order must not depend
+		// on map iteration order.
+		for _, o := range r.nodeDeclOrder {
+			o.Decl = r.restoreNode(r.nodeDecl[o], "", "", "", true)
 		}
-		for o, dn := range r.nodeData {
-			o.Data = r.restoreNode(dn, "", "", "", true)
+		for _, o := range r.nodeDataOrder {
+			o.Data = r.restoreNode(r.nodeData[o], "", "", "", true)
 		}
 	}
 
@@ -776,6 +782,7 @@ func (r *FileRestorer) restoreObject(o *dst.Object) *ast.Object {
 		// Can't use restoreNode here because we aren't at the right cursor position, so we store a link
 		// to the Object and Node so we can look the Nodes up in the cache after the file is fully processed.
 		r.nodeDecl[out] = decl
+		r.nodeDeclOrder = append(r.nodeDeclOrder, out)
 	case nil:
 	default:
 		panic(fmt.Sprintf("o.Decl is %T", o.Decl))
@@ -790,6 +797,7 @@ func (r *FileRestorer) restoreObject(o *dst.Object) *ast.Object {
 		// Can't use restoreNode here because we aren't at the right cursor position, so we store a link
 		// to the Object and Node so we can look the Nodes up in the cache after the file is fully processed.
 		r.nodeData[out] = data
+		r.nodeDataOrder = append(r.nodeDataOrder, out)
 	case nil:
 	default:
 		panic(fmt.Sprintf("o.Data is %T", o.Data))
@@ -825,8 +833,13 @@ func (r *FileRestorer) restoreScope(s *dst.Scope) *ast.Scope {
 
 	out.Outer = r.restoreScope(s.Outer)
 	out.Objects = map[string]*ast.Object{}
-	for k, v := range s.Objects {
-		out.Objects[k] = r.restoreObject(v)
+	names := make([]string, 0, len(s.Objects))
+	for k := range s.Objects {
+		names = append(names, k)
+	}
+	sort.Strings(names)
+	for _, k := range names {
+		out.Objects[k] = r.restoreObject(s.Objects[k])
 	}
 
 	return out
